@@ -1489,14 +1489,18 @@ class Repository:
                 future.result()
 
             for file_path in referenced_paths:
+                # Decide under the lock whether this was the last chunk of the file;
+                # otherwise two threads finishing the last two chunks can both see
+                # the empty set
                 with glock:
                     digests = files_digests[file_path]
                     digests.remove(digest)
-
-                if not digests:
-                    logger.info('Finished writing file %s', file_path)
-                    with glock:
+                    finished = not digests
+                    if finished:
                         restore_path, metadata = files_metadata.pop(file_path)
+
+                if finished:
+                    logger.info('Finished writing file %s', file_path)
                     self.restore_metadata(restore_path, metadata)
                     finished_tracker.update()
 
